@@ -521,10 +521,13 @@ def run_stream9(spec):
     from tpmstream.common.object import events_to_obj, events_to_objs
 
     parts = [bytes.fromhex(x) for x in spec.split(",")]
+    stream_exc = None
     try:
         stream_events = list(Binary.marshal(tpm_type=CommandResponseStream, buffer=b"".join(parts), abort_on_error=True))
     except Exception as e:  # noqa
-        return "BAD stream-raises %s" % type(e).__name__
+        # legitimate only if one of the messages, decoded on its own, raises the same kind of error
+        stream_exc = type(e).__name__
+        stream_events = []
     indiv = []
     objs = []
     cc = None
@@ -543,8 +546,12 @@ def run_stream9(spec):
                 evs = list(Binary.marshal(tpm_type=Response, buffer=p, abort_on_error=True, **kw))
                 objs.append(events_to_obj(evs, command_code=TPM_CC(cc)))
         except Exception as e:  # noqa
+            if stream_exc is not None and stream_exc != type(e).__name__:
+                return "BAD stream-raises %s but message %d on its own raises %s" % (stream_exc, i, type(e).__name__)
             return "NA part-%d-raises-%s" % (i, type(e).__name__)
         indiv += evs
+    if stream_exc is not None:
+        return "BAD stream-raises %s although every message decodes on its own" % stream_exc
     if len(stream_events) != len(indiv):
         return "BAD length stream=%d individual=%d" % (len(stream_events), len(indiv))
     for j, (a, b) in enumerate(zip(stream_events, indiv)):
